@@ -8,18 +8,6 @@ Import ListNotations.
 Open Scope list_scope.
 Open Scope m_scope.
 
-(* sorted(dirs, key=lambda d: -len(d)) / key=len : stable insertion sort on the
-   length of the textual path *)
-Definition plen (p : path) : nat := String.length (path_str p).
-Definition sort_longest_first (l : list path) : list path := sort_by (fun a b => Nat.leb (plen b) (plen a)) l.
-Definition sort_shortest_first (l : list path) : list path := sort_by (fun a b => Nat.leb (plen a) (plen b)) l.
-
-(* _remove_empty_dirs *)
-Definition remove_empty_dirs (dirs : list path) : M unit :=
-  mapM_ (fun d => catch (effect "rmdir" d (fun fs => rmdir fs d))
-                        (fun e => if is_os e then ret tt else raise e))
-        (sort_longest_first dirs).
-
 (* _create_dirs *)
 Definition create_dirs (dirs : list path) : M unit :=
   mapM_ (fun d => catch (effect "mkdir" d (fun fs => mkdir fs d))
